@@ -8,7 +8,9 @@ from llir import Module, parse_module
 from symex import *
 
 VERIF = B.VERIF
-OUT = os.path.join(VERIF, 'out')
+SCRATCH = os.environ.get('VERIF_SCRATCH')      # seed runs: keep evidence/out of a mutated tree away from the real ones
+OUT = os.path.join(SCRATCH or VERIF, 'out')
+EVID = os.path.join(SCRATCH or VERIF, 'evidence')
 KNOWN = os.path.join(VERIF, 'known-findings.txt')
 
 # ------------------------------------------------------------------ snapshots
@@ -193,7 +195,7 @@ class Check:
         self.assumptions = []; self.bounds = {}; self.stubs = []; self.notes = []
         self.seed = int(os.environ.get('VERIF_SEED', '0') or 0)
         os.makedirs(os.path.join(OUT, pid), exist_ok=True)
-        os.makedirs(os.path.join(VERIF, 'evidence'), exist_ok=True)
+        os.makedirs(EVID, exist_ok=True)
         self.replayer = None   # fn(cex_path, cex) -> (reproduced: bool, text)
     def add(self, results): self.results.extend(results)
     def finish(self):
@@ -255,7 +257,7 @@ class Check:
             'assumptions': self.assumptions + self.notes,
             'wall_s': round(time.time() - self.t0, 2), 'violations': nviol,
         }
-        json.dump(ev, open(os.path.join(VERIF, 'evidence', self.pid + '.json'), 'w'), indent=1, default=str)
+        json.dump(ev, open(os.path.join(EVID, self.pid + '.json'), 'w'), indent=1, default=str)
         for l in lines: print(l)
         print('%s tier=%s jobs=%d obligations=%d discharged=%d witnesses=%d/%d violations=%d known=%d inconclusive=%d errors=%d paths=%d instr=%d queries=%d solver=%.1fs wall=%.1fs' % (
             self.pid, self.tier, len(self.results), len(props), ev['coverage']['discharged'], ev['coverage']['witnesses_ok'], ev['coverage']['witnesses'],
